@@ -517,6 +517,9 @@ func c02configs(tier string) []cfg {
 		cfg{Client: []string{"S:a:flag"}, Env: []string{"flag++"}, Spawn: true},
 		cfg{Client: []string{"S:a:slow", "U:a", "S:a:slow"}, Env: []string{"flag++"}},
 		cfg{Client: []string{"S:a:slow"}, Env: []string{"flag++", "flag++"}},
+		// a mutation that re-uses the id of a live subscription, then the unsubscribe
+		cfg{Client: []string{"S:a:flag", "M:a:3", "U:a"}, Env: []string{"flag++"}},
+		cfg{Client: []string{"S:a:items", "M:a:3", "U:a", "E"}, Env: []string{"edit"}},
 		// middlewares on the connection (1 and 3: with and without spare capacity in the slice that holds them)
 		cfg{Client: []string{"S:a:flag", "M:m:5"}, Env: []string{"flag++"}, Mw: 3},
 		cfg{Client: []string{"S:a:flag", "M:m:5"}, Mw: 1},
